@@ -1,94 +1,60 @@
 /-
-Helper lemmas: the text `I[.J[.K]]` (ASCII digit runs) parses to its numeric components, so the
-structured statement `matches_iff` speaks about requirement and version *strings*.
+Helper lemmas: what `SemVer(...)` holds for a version *text*. The text `I[.J[.K]]` (ASCII digit
+runs) parses to its numeric components, and a full SemVer text `M.m.p[-pre][+build]` parses to the
+encoding of its fields as the specification reads them.
 -/
-import MesonModel.Cargo.MatchLemmas
+import MesonModel.Cargo.SemverLemmas
 set_option linter.unusedSimpArgs false
 namespace MesonModel.Cargo
-open MesonModel.Py
+open MesonModel.Py Spec
 
-/-! ### the text `I[.J[.K]]` parses to its numeric components -/
+/-! ### the digit-run scanner -/
 
-theorem scanGo_digits (ds : List Char) (hd : ∀ c, c ∈ ds → isDigit c = true) :
+theorem scanCore_digits (ds : List Char) (hd : ∀ c, c ∈ ds → isDigit c = true) :
     ∀ (acc : Nat) (rest : List Char),
-      scanGo (.digits acc) (ds ++ rest) =
-        scanGo (.digits (ds.foldl (fun a c => a * 10 + digitVal c) acc)) rest := by
+      scanCore (.digits acc) (ds ++ rest) =
+        scanCore (.digits (ds.foldl (fun a c => a * 10 + digitVal c) acc)) rest := by
   induction ds with
   | nil => intro acc rest; rfl
   | cons d ds ih =>
     intro acc rest
     have h1 : isDigit d = true := hd d (by simp)
-    simp only [List.cons_append, scanGo, h1, if_true, List.foldl_cons]
+    simp only [List.cons_append, scanCore, h1, if_true, List.foldl_cons]
     exact ih (fun c hc => hd c (by simp [hc])) _ _
-
-theorem scan_digits_none (d : Char) (ds : List Char) (hd : ∀ c, c ∈ d :: ds → isDigit c = true)
-    (rest : List Char) :
-    scanGo .none (d :: ds ++ rest) = scanGo (.digits (natOfDigits (d :: ds))) rest := by
-  have h1 : isDigit d = true := hd d (by simp)
-  simp only [List.cons_append, scanGo, h1, if_true]
-  rw [scanGo_digits ds (fun c hc => hd c (by simp [hc]))]
-  simp [natOfDigits]
-
-theorem scanGo_digits_dot (n : Nat) (r : List Char) :
-    scanGo (.digits n) ('.' :: r) = .num n :: scanGo .none r := by
-  have h1 : isDigit '.' = false := by decide
-  have h2 : isIdentStart '.' = false := by decide
-  simp [scanGo, h1, h2, flush]
-
-theorem scanGo_digits_end (n : Nat) : scanGo (.digits n) [] = [.num n] := rfl
 
 /-- a non-empty run of ASCII digits -/
 def IsNum (s : List Char) : Prop := s ≠ [] ∧ ∀ c, c ∈ s → isDigit c = true
 
-theorem parse_one (a : List Char) (ha : IsNum a) :
-    SemVer.parse a = SemVer.ofComps [natOfDigits a] := by
+theorem scanCore_num (a : List Char) (ha : IsNum a) (rest : List Char) :
+    scanCore .none (a ++ rest) = scanCore (.digits (natOfDigits a)) rest := by
   obtain ⟨hne, hd⟩ := ha
   cases a with
   | nil => exact absurd rfl hne
   | cons d ds =>
-    have := scan_digits_none d ds hd []
-    simp only [List.append_nil] at this
-    simp [SemVer.parse, scan, this, scanGo_digits_end, pstep, SemVer.ofComps, padTo]
+    have h1 : isDigit d = true := hd d (by simp)
+    simp only [List.cons_append, scanCore, h1, if_true]
+    rw [scanCore_digits ds (fun c hc => hd c (by simp [hc]))]
+    simp [natOfDigits]
 
-theorem parse_two (a b : List Char) (ha : IsNum a) (hb : IsNum b) :
-    SemVer.parse (a ++ '.' :: b) = SemVer.ofComps [natOfDigits a, natOfDigits b] := by
-  obtain ⟨hne, hd⟩ := ha
-  obtain ⟨hne2, hd2⟩ := hb
-  cases a with
-  | nil => exact absurd rfl hne
-  | cons d ds =>
-    cases b with
-    | nil => exact absurd rfl hne2
-    | cons e es =>
-      have h1 := scan_digits_none d ds hd ('.' :: e :: es)
-      have h2 := scan_digits_none e es hd2 []
-      simp only [List.append_nil] at h2
-      unfold SemVer.parse scan
-      rw [h1, scanGo_digits_dot, h2, scanGo_digits_end]
-      simp [pstep, SemVer.ofComps, padTo]
+theorem scanCore_digits_dot (n : Nat) (r : List Char) :
+    scanCore (.digits n) ('.' :: r) = (n :: (scanCore .none r).1, (scanCore .none r).2) := by
+  have h1 : isDigit '.' = false := by decide
+  have h2 : isIdentStart '.' = false := by decide
+  simp [scanCore, h1, h2, flush]
 
-theorem parse_three (a b c : List Char) (ha : IsNum a) (hb : IsNum b) (hc : IsNum c) :
-    SemVer.parse (a ++ '.' :: (b ++ '.' :: c)) =
-      SemVer.ofComps [natOfDigits a, natOfDigits b, natOfDigits c] := by
-  obtain ⟨hne, hd⟩ := ha
-  obtain ⟨hne2, hd2⟩ := hb
-  obtain ⟨hne3, hd3⟩ := hc
-  cases a with
-  | nil => exact absurd rfl hne
-  | cons d ds =>
-    cases b with
-    | nil => exact absurd rfl hne2
-    | cons e es =>
-      cases c with
-      | nil => exact absurd rfl hne3
-      | cons g gs =>
-        have h1 := scan_digits_none d ds hd ('.' :: (e :: es ++ '.' :: g :: gs))
-        have h2 := scan_digits_none e es hd2 ('.' :: g :: gs)
-        have h3 := scan_digits_none g gs hd3 []
-        simp only [List.append_nil] at h3
-        unfold SemVer.parse scan
-        rw [h1, scanGo_digits_dot, h2, scanGo_digits_dot, h3, scanGo_digits_end]
-        simp [pstep, SemVer.ofComps, padTo]
+/-- what ends the numeric core: nothing, the pre-release marker, or build metadata -/
+inductive Tail : List Char → List Char → Prop where
+  | none : Tail [] []
+  | pre (x : List Char) : Tail ('-' :: x) ('-' :: x)
+  | build (x : List Char) : Tail ('+' :: x) []
+
+theorem scanCore_digits_tail (n : Nat) (tail txt : List Char) (ht : Tail tail txt) :
+    scanCore (.digits n) tail = ([n], txt) := by
+  have h1 : isDigit '-' = false := by decide
+  have h2 : isIdentStart '-' = true := by decide
+  have h3 : isDigit '+' = false := by decide
+  have h4 : isIdentStart '+' = false := by decide
+  cases ht <;> simp [scanCore, flush, h1, h2, h3, h4]
 
 /-- `I`, `I.J`, `I.J.K` … joined with dots -/
 def dotted : List (List Char) → List Char
@@ -96,15 +62,185 @@ def dotted : List (List Char) → List Char
   | [a] => a
   | a :: b :: rest => a ++ '.' :: dotted (b :: rest)
 
+theorem scanCore_dotted (ds : List (List Char)) (hne : ds ≠ []) (hd : ∀ d, d ∈ ds → IsNum d)
+    (tail txt : List Char) (ht : Tail tail txt) :
+    scanCore .none (dotted ds ++ tail) = (ds.map natOfDigits, txt) := by
+  induction ds with
+  | nil => exact absurd rfl hne
+  | cons a rest ih =>
+    cases rest with
+    | nil =>
+      simp only [dotted, List.map]
+      rw [scanCore_num a (hd a (by simp)), scanCore_digits_tail _ _ _ ht]
+    | cons b rest' =>
+      have := ih (by simp) (fun d h => hd d (by simp [h]))
+      simp only [dotted, List.append_assoc, List.cons_append]
+      rw [scanCore_num a (hd a (by simp)), scanCore_digits_dot, this]
+      simp
+
+theorem preIdents_nil : preIdents [] = [] := by decide
+
 theorem parse_dotted (ds : List (List Char)) (h1 : 1 ≤ ds.length) (h3 : ds.length ≤ 3)
     (hd : ∀ d, d ∈ ds → IsNum d) :
     SemVer.parse (dotted ds) = SemVer.ofComps (ds.map natOfDigits) := by
-  match ds, h1, h3 with
-  | [a], _, _ => exact parse_one a (hd a (by simp))
-  | [a, b], _, _ => exact parse_two a b (hd a (by simp)) (hd b (by simp))
-  | [a, b, c], _, _ => exact parse_three a b c (hd a (by simp)) (hd b (by simp)) (hd c (by simp))
+  have hne : ds ≠ [] := by intro h; subst h; simp at h1
+  have := scanCore_dotted ds hne hd [] [] Tail.none
+  simp only [List.append_nil] at this
+  have ht : (ds.map natOfDigits).take 3 = ds.map natOfDigits := by
+    apply List.take_of_length_le; simpa using h3
+  simp [SemVer.parse, this, preIdents_nil, ht, SemVer.ofComps]
 
 theorem ofComps_three (x y z : Nat) : SemVer.ofComps [x, y, z] = release (x, y, z) := by
   simp [SemVer.ofComps, release, padTo]
+
+/-! ### the pre-release section -/
+
+theorem splitOnChar_ne_nil (sep : Char) (s : List Char) : splitOnChar sep s ≠ [] := by
+  cases s with
+  | nil => simp [splitOnChar]
+  | cons d ds => simp only [splitOnChar]; split <;> (try split) <;> simp
+
+theorem splitOnChar_append (sep : Char) (a b : List Char) :
+    splitOnChar sep (a ++ sep :: b) = splitOnChar sep a ++ splitOnChar sep b := by
+  induction a with
+  | nil => simp [splitOnChar]
+  | cons c cs ih =>
+    by_cases h : c = sep
+    · subst h; simp [splitOnChar, ih]
+    · simp only [List.cons_append, splitOnChar, h, beq_iff_eq, if_false, ih]
+      cases h1 : splitOnChar sep cs with
+      | nil => exact absurd h1 (splitOnChar_ne_nil sep cs)
+      | cons p ps => simp
+
+theorem splitOnChar_noSep (sep : Char) (a : List Char) (h : sep ∉ a) : splitOnChar sep a = [a] := by
+  induction a with
+  | nil => simp [splitOnChar]
+  | cons c cs ih =>
+    have hc : ¬ c = sep := by intro e; subst e; simp at h
+    have := ih (by intro hm; exact h (by simp [hm]))
+    simp [splitOnChar, hc, this]
+
+/-- a pre-release identifier text: non-empty, over `[0-9A-Za-z-]` -/
+def IsIdent (i : List Char) : Prop := i ≠ [] ∧ ∀ c, c ∈ i → isIdentChar c = true
+
+theorem identChar_ne_dot (c : Char) (h : isIdentChar c = true) : c ≠ '.' := by
+  intro e; subst e; exact absurd h (by decide)
+theorem identChar_ne_plus (c : Char) (h : isIdentChar c = true) : c ≠ '+' := by
+  intro e; subst e; exact absurd h (by decide)
+
+theorem split_dotted (ids : List (List Char)) (hne : ids ≠ []) (hi : ∀ i, i ∈ ids → IsIdent i) :
+    splitOnChar '.' (dotted ids) = ids := by
+  induction ids with
+  | nil => exact absurd rfl hne
+  | cons a rest ih =>
+    have ha : '.' ∉ a := fun hm => identChar_ne_dot _ ((hi a (by simp)).2 _ hm) rfl
+    cases rest with
+    | nil => simpa [dotted] using splitOnChar_noSep '.' a ha
+    | cons b rest' =>
+      have := ih (by simp) (fun i h => hi i (by simp [h]))
+      simp only [dotted]
+      rw [splitOnChar_append, splitOnChar_noSep '.' a ha, this]
+      rfl
+
+theorem dotted_no_plus (ids : List (List Char)) (hi : ∀ i, i ∈ ids → IsIdent i) :
+    ∀ c, c ∈ dotted ids → c ≠ '+' := by
+  induction ids with
+  | nil => intro c hc; simp [dotted] at hc
+  | cons a rest ih =>
+    cases rest with
+    | nil => intro c hc; exact identChar_ne_plus c ((hi a (by simp)).2 c (by simpa [dotted] using hc))
+    | cons b rest' =>
+      intro c hc
+      simp only [dotted, List.mem_append, List.mem_cons] at hc
+      rcases hc with h | h | h
+      · exact identChar_ne_plus c ((hi a (by simp)).2 c h)
+      · subst h; decide
+      · exact ih (fun i h' => hi i (by simp [h'])) c h
+
+theorem takeWhile_stop (l : List Char) (hl : ∀ c, c ∈ l → c ≠ '+') (rest : List Char)
+    (hr : rest = [] ∨ ∃ x, rest = '+' :: x) :
+    (l ++ rest).takeWhile (fun c => c != '+') = l := by
+  induction l with
+  | nil =>
+    rcases hr with rfl | ⟨x, rfl⟩ <;> simp
+  | cons c cs ih =>
+    have hc : c ≠ '+' := hl c (by simp)
+    simp [List.takeWhile, hc, ih (fun d hd => hl d (by simp [hd]))]
+
+/-- how the specification reads an identifier text -/
+def fieldOf (i : List Char) : Ident :=
+  if i.all isDigit then .num (natOfDigits i) else .alnum i
+
+theorem classify_eq (i : List Char) : classify i = encI (fieldOf i) := by
+  unfold classify fieldOf
+  split <;> simp [encI]
+
+theorem preIdents_section (ids : List (List Char)) (hne : ids ≠ []) (hi : ∀ i, i ∈ ids → IsIdent i)
+    (rest : List Char) (hr : rest = [] ∨ ∃ x, rest = '+' :: x) :
+    preIdents ('-' :: (dotted ids ++ rest)) = (ids.map fieldOf).map encI := by
+  have h1 : (('-' :: dotted ids) ++ rest).takeWhile (fun c => c != '+') = '-' :: dotted ids :=
+    takeWhile_stop _ (by
+      intro c hc
+      simp only [List.mem_cons] at hc
+      rcases hc with h | h
+      · subst h; decide
+      · exact dotted_no_plus ids hi c h) rest hr
+  simp only [List.cons_append] at h1
+  have h2 : ∀ i, i ∈ ids → i ≠ [] := fun i h => (hi i h).1
+  simp only [preIdents, h1, startsWith, List.isPrefixOf, beq_self_eq_true, Bool.true_and, if_true,
+    List.drop, split_dotted ids hne hi]
+  rw [List.filter_eq_self.mpr (by intro i h; simpa using h2 i h)]
+  simp [classify_eq]
+
+/-! ### a full SemVer text -/
+
+structure SVText where
+  major : List Char
+  minor : List Char
+  patch : List Char
+  pre : List (List Char)
+  build : Option (List Char)
+
+def SVText.wf (t : SVText) : Prop :=
+  IsNum t.major ∧ IsNum t.minor ∧ IsNum t.patch ∧ ∀ i, i ∈ t.pre → IsIdent i
+
+def buildText : Option (List Char) → List Char
+  | none => []
+  | some b => '+' :: b
+
+/-- `M.m.p[-pre][+build]` -/
+def SVText.render (t : SVText) : List Char :=
+  dotted [t.major, t.minor, t.patch] ++
+    ((if t.pre = [] then [] else '-' :: dotted t.pre) ++ buildText t.build)
+
+/-- the fields as the specification reads them -/
+def SVText.fields (t : SVText) : SV :=
+  ⟨natOfDigits t.major, natOfDigits t.minor, natOfDigits t.patch, t.pre.map fieldOf⟩
+
+theorem parse_render_text (t : SVText) (h : t.wf) : SemVer.parse t.render = ⟨encode t.fields, 3⟩ := by
+  obtain ⟨hM, hm, hp, hi⟩ := h
+  have hd : ∀ d, d ∈ [t.major, t.minor, t.patch] → IsNum d := by
+    intro d hd; simp at hd; rcases hd with rfl | rfl | rfl <;> assumption
+  have hb : buildText t.build = [] ∨ ∃ x, buildText t.build = '+' :: x := by
+    cases t.build <;> simp [buildText]
+  by_cases hpre : t.pre = []
+  · -- release
+    have htail : ∃ txt, Tail (buildText t.build) txt ∧ preIdents txt = [] := by
+      cases hbb : t.build with
+      | none => exact ⟨[], by simpa [buildText] using Tail.none, preIdents_nil⟩
+      | some b => exact ⟨[], by simpa [buildText] using Tail.build b, preIdents_nil⟩
+    obtain ⟨txt, ht, hpi⟩ := htail
+    have := scanCore_dotted [t.major, t.minor, t.patch] (by simp) hd _ _ ht
+    simp only [SVText.render, hpre, if_true, List.nil_append]
+    simp [SemVer.parse, this, hpi, encode, SVText.fields, hpre, padTo]
+  · -- pre-release
+    have ht : Tail ('-' :: (dotted t.pre ++ buildText t.build)) ('-' :: (dotted t.pre ++ buildText t.build)) :=
+      Tail.pre _
+    have := scanCore_dotted [t.major, t.minor, t.patch] (by simp) hd _ _ ht
+    have hpi := preIdents_section t.pre hpre hi (buildText t.build) hb
+    have hne : (t.pre.map fieldOf).map encI ≠ [] := by simpa using hpre
+    simp only [SVText.render, hpre, if_false, List.cons_append]
+    have hne2 : ¬ (List.map fieldOf t.pre = []) := by simpa using hpre
+    simp [SemVer.parse, this, hpi, hne, encode, SVText.fields, hne2, hpre, padTo]
 
 end MesonModel.Cargo
